@@ -56,11 +56,16 @@ class Ctx:
                 return []
             checks = "checks" in features
             nocopy = "no_copy_impls" in features
+            import time as _t
+            t0 = _t.time()
             rust = core.run_rust(binary, cases)
+            t1 = _t.time()
+            ntimeout = sum(1 for r in rust if r == [[3]])
             if first_rust is None:
                 first_rust = rust
             lv = levels if levels is not None else sorted({l for c in cases for l in c.levels})
             models = {l: core.run_model(self.driver, cases, l, checks, nocopy) for l in lv}
+            core.log("%s: %d cases, %s %s: impl %.1fs (%d timeouts), models %.1fs" % (what, len(cases), profile, "+".join(features) or "default", t1 - t0, ntimeout, _t.time() - t1))
             v.cov["evaluations"] += len(cases)
             bad = []
             for i, c in enumerate(cases):
@@ -258,7 +263,7 @@ def code_items(ctx, dense):
             strict = rng.randrange(2)
             rb = rng.choice([0, 0, 2, 3]) if strict else 0
             items.append(dict(E=E, wW=wW, rW=rW, off=rng.randrange(0, 2 * Wb + 2), cid=cid, p=p, wfl=wfl, rfl=rfl, v=v,
-                              strict=strict, rb=rb, wb=rng.randrange(4)))
+                              strict=strict, rb=rb, wb=rng.choice([0, 2, 3])))
     return items
 
 
@@ -429,7 +434,12 @@ def check_C09(ctx):
                 dbytes = list(data[: cut * Wb // 8])
                 for strict, rb in ((1, 0), (1, rng.choice([2, 3])), (0, 0)):
                     ops = []
-                    for itm in items:
+                    for ii, itm in enumerate(items):
+                        if not strict and ends[ii] > cut * Wb:
+                            # zero-extended: a fixed-width read across the end sees zeros and never fails;
+                            # a unary scan into the zero tail would never return
+                            ops.append([10, 64])
+                            break
                         if itm[0] == "bits":
                             ops.append([10, itm[1]])
                         else:
@@ -455,6 +465,10 @@ def check_C09(ctx):
                 if g[0] != 0 or g[1] != want:
                     return "item %d lies within the data (ends at bit %d of %d) but read gave %r, written %d" % (i, ends[i], avail, g, want)
             else:
+                if not strict:
+                    if g[0] != 0:
+                        return "zero-extended read across the end failed: %r" % (g,)
+                    return None
                 if strict:
                     if g[0] == 0:
                         # the item needs bits beyond the cut: a strict backend must not fabricate them,
@@ -493,7 +507,9 @@ def check_C08(ctx):
                         rng.shuffle(conts)
                         conts = [c for c in conts if not (rW == 8 and c[0] == 15)]
                         ops = pre_r + pre_w + [[op, n]] + conts[:5] + [[3]]
-                        cases.append(Case([world_hdr(E, wW=wW, rW=rW, rstrict=0, wbackend=3), data] + ops,
+                        # unary scans over zero data followed by a zero-extended tail never return
+                        rstrict = 0 if pname in ("random", "ones") else 1
+                        cases.append(Case([world_hdr(E, wW=wW, rW=rW, rstrict=rstrict, wbackend=3), data] + ops,
                                           "%s/%s/r%d/w%d" % ("copy_to" if op == 30 else "copy_from", pname, rW, wW)))
     builds = [("debug", ()), ("release", ()), ("debug", ("no_copy_impls",))]
     if ctx.tier != "quick":
